@@ -500,7 +500,7 @@ func TestForwardAndClose(t *testing.T) {
 		"rapid: 1..4 concurrent forwarding.ForwardAndClose calls between Unix socket pairs (real CloseWrite) sharing one context; each application end sends 0 B..1 MiB in drawn chunk sizes, starts at once or only after the other end's half-close arrived, and ends by half-close / holding the connection until EOF / abrupt close after a drawn prefix; optionally the context is cancelled once a drawn end has received a drawn number of bytes, or the forwarder's own connection towards a drawn end fails in the middle of a write (the write crossing a drawn total delivers the bytes up to it and returns them with an error). Oracle: every end receives a prefix of what the other end wrote, the complete payload followed by a clean EOF when neither end aborted (and when the aborting end's peer sent nothing), all ends finish within 30 s (re-executed 3 times before reporting), ForwardAndClose returns and both its connections are closed, each auditor total lies between bytes received and bytes sent and equals bytes received for ends that read to the end (at once, when the write fault is the only thing that can end the call). Non-trivial: an end answers only after the forwarded half-close, cancellation hits after data arrived, or a failing write delivered part of its buffer")
 	violationSeen.Store(false)
 	frozen.key = ""
-	ev.Check(t, rec, 250, 3000, func(rt *rapid.T) {
+	ev.Check(t, rec, 250, 12000, func(rt *rapid.T) {
 		c := &FwdCase{}
 		kind := rapid.IntRange(0, 7).Draw(rt, "cancel")
 		interrupted := kind <= 1
@@ -948,7 +948,7 @@ func TestSessions(t *testing.T) {
 	env := newSessionEnv(t)
 	violationSeen.Store(false)
 	frozen.key = ""
-	ev.Check(t, rec, 120, 1500, func(rt *rapid.T) {
+	ev.Check(t, rec, 120, 5000, func(rt *rapid.T) {
 		c := &SessionCase{Event: rapid.SampledFrom([]string{"none", "none", "none", "pause", "terminate"}).Draw(rt, "event")}
 		c.Conns = drawConns(rt, c.Event != "none", 5)
 		if c.Event != "none" {
